@@ -281,7 +281,7 @@ func C05(r *eng.Run) {
 		rec(append(buf, prefix...))
 	})
 	m1 := r.Evals() / 3
-	r.States.Add(int64(len(alpha)) * 8) // automaton states x symbols explored (nominal size of the reference automaton)
+	r.States.Add(m1) // nodes of the prefix tree of input strings: each is one run of the parser from its initial state, judged against the reference automaton
 	r.Transitions.Add(m1)
 	r.Phase("M1 all strings", t0, map[string]any{"strings": m1})
 
